@@ -2,6 +2,7 @@
 package an
 
 import (
+	"go/constant"
 	"go/token"
 	"go/types"
 	"strings"
@@ -301,6 +302,10 @@ func Terminal(v ssa.Value) ssa.Value {
 				return v
 			}
 			rets := Returns(f)
+			if cond := BoolIdentity(f); cond != nil {
+				v = cond
+				continue
+			}
 			if len(rets) != 1 || len(rets[0].Results) != 1 {
 				return v
 			}
@@ -310,6 +315,34 @@ func Terminal(v ssa.Value) ssa.Value {
 		}
 	}
 	return v
+}
+
+// BoolIdentity: f is `if x { return true }; return false` — it returns x. The condition is handed back (nil
+// when f has another shape).
+func BoolIdentity(f *ssa.Function) ssa.Value {
+	if f == nil || len(f.Blocks) != 3 || f.Signature.Results().Len() != 1 {
+		return nil
+	}
+	entry := f.Blocks[0]
+	iff, ok := entry.Instrs[len(entry.Instrs)-1].(*ssa.If)
+	if !ok {
+		return nil
+	}
+	onlyReturn := func(b *ssa.BasicBlock, want bool) bool {
+		if len(b.Instrs) != 1 {
+			return false
+		}
+		ret, ok := b.Instrs[0].(*ssa.Return)
+		if !ok || len(ret.Results) != 1 {
+			return false
+		}
+		k, ok := ret.Results[0].(*ssa.Const)
+		return ok && k.Value != nil && k.Value.Kind() == constant.Bool && constant.BoolVal(k.Value) == want
+	}
+	if onlyReturn(entry.Succs[0], true) && onlyReturn(entry.Succs[1], false) {
+		return iff.Cond
+	}
+	return nil
 }
 
 // TerminalField returns the struct field a value is ultimately read from, with the type owning it.
